@@ -436,15 +436,18 @@ class P:
             return ('qpath', ty, name)
         if self.atp('|') or self.atp('||'):
             # closure: parameters are skipped, the body is parsed (and never translated)
+            params = []
             if self.atp('||'):
                 self.next()
             else:
                 self.next()
                 while not self.atp('|'):
-                    self.next()
+                    t2 = self.next()
+                    if t2[0] == 'id' and t2[1] not in ('mut', 'ref'):
+                        params.append(t2[1])
                 self.next()
             body = self.expr()
-            return ('closure', body)
+            return ('closure', body, params)
         if t[0] == 'id':
             if t[1] == 'if':
                 self.next()
@@ -716,8 +719,8 @@ class World:
         if ty in self.penums:
             return ty
         if ty in self.opaque:
-            return 'N'
-        m = re.match(r'^(?:Iter|IterMut|std::slice::Iter)<(.+)>$', ty)
+            return self.opaque[ty].get('@type', 'N')
+        m = re.match(r'^(?:Iter|IterMut|std::slice::Iter|Vec)<(.+)>$', ty)
         if m:
             return 'list %s' % self.paren(self.gty(m.group(1), self_ty))
         m = re.match(r'^Result<(.*)>$', ty)
@@ -794,6 +797,7 @@ class Ctx:
         self.fn_rty = '_'
         self.break_k = None
         self.continue_k = None
+        self.generic_types = {}
 
     def copy(self):
         c = Ctx(self.w, self.self_ty, self.ret_ty, self.recvs, self.fuel_used)
@@ -807,6 +811,7 @@ class Ctx:
         c.fn_rty = self.fn_rty
         c.break_k = self.break_k
         c.continue_k = self.continue_k
+        c.generic_types = self.generic_types
         return c
 
     def tmp(self, base='t'):
@@ -1164,6 +1169,8 @@ def tr_expr(e, cx, expect=None):
                 return '%s_%s %s' % (p[0], p[1], atom(t)), c, p[0]
             if len(p) == 2 and p[1] == 'get_type' and p[0] in w.get_type:
                 return w.get_type[p[0]], [], 'AttributeType'
+            if len(p) == 2 and p[1] == 'get_type' and p[0] in cx.generic_types:
+                return cx.generic_types[p[0]], [], 'AttributeType'
             if p == ['Duration', 'default'] or p == ['Duration', 'ZERO']:
                 return '0', [], 'Duration'
             if p in (['BigEndian', 'read_u16'], ['BigEndian', 'read_u32']) and len(e[2]) == 1:
@@ -1253,7 +1260,26 @@ def tr_expr(e, cx, expect=None):
                 pass
             oty = w.norm(ty0, cx.self_ty) if ty0 else None
             if oty in w.opaque and name in w.opaque[oty]:
-                return '%s %s' % (w.opaque[oty][name], atom(t0)), c0, 'bool'
+                spec = w.opaque[oty][name]
+                fn_, rty_ = (spec, 'bool') if isinstance(spec, str) else spec
+                return '%s %s' % (fn_, atom(t0)), c0, rty_
+        if name == 'position' and len(args) == 1 and args[0][0] == 'closure' and len(args[0][2]) == 1:
+            lt_, lc_, lty_ = tr_expr(recv, cx)
+            mm = re.match(r'^(?:Vec|Iter|IterMut)<(.+)>$', w.norm(lty_, cx.self_ty) or '')
+            if not mm:
+                raise Unsupported('position() on %s' % lty_)
+            cx2 = cx.copy()
+            pn = args[0][2][0]
+            cx2.vars[pn] = (gal_name(pn), mm.group(1))
+            bt, bc, _ = tr_expr(args[0][1], cx2, 'bool')
+            if bc:
+                raise Unsupported('partial operation inside a closure')
+            return 'list_position (fun %s => %s) %s' % (gal_name(pn), bt, atom(lt_)), lc_, 'Option<usize>'
+        if name in ('iter', 'iter_mut') and not args:
+            t, c, ty = tr_expr(recv, cx)
+            mm = re.match(r'^Vec<(.+)>$', w.norm(ty, cx.self_ty) or '')
+            if mm:
+                return t, c, 'Iter<%s>' % mm.group(1)
         if name in ('len', 'to_vec', 'is_empty', 'as_slice', 'as_ref') and not args:
             t, c, ty = tr_expr(recv, cx)
             if is_bytes(w.norm(ty, cx.self_ty)):
@@ -1721,6 +1747,27 @@ def tr_stmts(stmts, tail, cx, k):
         if s[0] == 'assign':
             return with_tries(s[3], cx, None, lambda cx2, e2: tr_stmts([('assign', s[1], s[2], e2)] + rest, tail, cx2, k))
         return with_tries(s[1], cx, None, lambda cx2, e2: tr_stmts([('expr', e2)] + rest, tail, cx2, k))
+    if s[0] == 'return' and s[1] is not None:
+        r = s[1]
+        inner = r[2][0] if (r[0] == 'call' and r[1] == ('path', ['Some']) and len(r[2]) == 1) else r
+        if inner[0] == 'mcall' and inner[2] == 'take' and not inner[3]:
+            # return PLACE.take(): the old value is returned, the place becomes None
+            key = place_key(inner[1])
+            if key is not None and (key in cx.vars or key in cx.places):
+                g = assign_place(cx, key, None)
+                old = cx.tmp('old')
+                val = old if inner is r else 'Some %s' % old
+                return 'let %s := %s in\n  let %s := None in\n  %s' % (old, g, g, exit_term(cx, val))
+        if inner[0] == 'mcall' and inner[2] == 'remove' and len(inner[3]) == 1:
+            # return Some(VEC.remove(i)): the element is returned, the vector loses it (panics when i is out of range)
+            key = place_key(inner[1])
+            if key is not None and (key in cx.vars or key in cx.places):
+                g = assign_place(cx, key, None)
+                it, ic, _ = tr_expr(inner[3][0], cx, 'usize')
+                old = cx.tmp('old')
+                val = ('Some (list_get %s %s)' % (old, atom(it))) if inner is not r else 'list_get %s %s' % (old, atom(it))
+                return chk(ic + ['%s <? N.of_nat (length %s)' % (atom(it), g)],
+                           'let %s := %s in\n  let %s := list_remove %s %s in\n  %s' % (old, g, g, old, atom(it), exit_term(cx, val)), cx)
     if s[0] == 'return':
         if s[1] is None:
             return exit_term(cx, None)
@@ -1753,6 +1800,16 @@ def tr_stmts(stmts, tail, cx, k):
         if ety is None and e[0] == 'num':
             ety = 'usize'
         return chk(c, after(cx, t, ety), cx)
+    if s[0] == 'assign' and s[1][0] == 'index' and s[1][2][0] != 'range' and s[2] is None:
+        # VEC[i] = v  (panics when i is out of range)
+        key = place_key(s[1][1])
+        if key is None or not (key in cx.vars or key in cx.places):
+            raise Unsupported('indexed assignment target')
+        g = assign_place(cx, key, None)
+        it, ic, _ = tr_expr(s[1][2], cx, 'usize')
+        vt, vc, _ = tr_expr(s[3], cx)
+        return chk(ic + vc + ['%s <? N.of_nat (length %s)' % (atom(it), g)],
+                   'let %s := list_set %s %s %s in\n  %s' % (g, g, atom(it), atom(vt), tr_stmts(rest, tail, cx, k)), cx)
     if s[0] == 'assign':
         key = place_key(s[1])
         if key is None:
@@ -1802,6 +1859,12 @@ def tr_stmts(stmts, tail, cx, k):
                 st, sc, _ = tr_expr(e[3][0], cx)
                 conds = rc + sc + ['%s - %s =? len %s' % (atom(bt), atom(at), atom(st))]
                 return chk(conds, 'let %s := list_splice %s %s %s in\n  %s' % (g, g, atom(at), atom(st), tr_stmts(rest, tail, cx, k)), cx)
+        if e[0] == 'mcall' and e[2] == 'push' and len(e[3]) == 1:
+            key = place_key(e[1])
+            if key is not None and (key in cx.vars or key in cx.places):
+                g = assign_place(cx, key, None)
+                vt, vc, _ = tr_expr(e[3][0], cx)
+                return chk(vc, 'let %s := %s ++ [%s] in\n  %s' % (g, g, vt, tr_stmts(rest, tail, cx, k)), cx)
         if e[0] == 'path':
             return tr_stmts(rest, tail, cx, k)     # what is left of `f(..)?;` once the `?` is bound
         if e[0] == 'call' or e[0] == 'mcall':
@@ -2005,6 +2068,15 @@ def translate_fn(world, gname, src, fn, self_ty=None, recv_record=None):
         ret = re.sub(r'\bSelf::%s\b' % am.group(1), am.group(2).strip(), ret)
         params = re.sub(r'\bSelf::%s\b' % am.group(1), am.group(2).strip(), params)
     ps = split_top(params)
+    generics = []
+    mg = re.search(r'\bfn\s+%s\s*<([^>]*)>' % re.escape(fn), src)
+    if mg:
+        generics = [x.strip().split(':')[0].strip() for x in split_top(mg.group(1)) if x.strip() and not x.strip().startswith("'")]
+    generic_into = {}
+    for gt in generics:
+        mi = re.search(r'\b%s\s*:\s*Into<(\w+)>' % gt, src)
+        if mi:
+            generic_into[gt] = mi.group(1)            # a by-value `x: T` with `T: Into<X>` is an X (`.into()` is the identity)
     recv = None
     plist = []
     fuel_used, cx = [False], None
@@ -2035,6 +2107,8 @@ def translate_fn(world, gname, src, fn, self_ty=None, recv_record=None):
         if not m:
             raise Unsupported('parameter %r' % p)
         name, ty = m.group(1), m.group(2).strip()
+        if ty in generic_into:
+            ty = generic_into[ty]
         nty = world.norm(ty, self_ty)
         if re.match(r'&\s*mut\b', ty) and nty in world.records:
             binders.append('(%s : %s)' % (name, nty))
@@ -2049,6 +2123,11 @@ def translate_fn(world, gname, src, fn, self_ty=None, recv_record=None):
             binders.append('(%s : %s)' % (gal_name(name), world.gty(ty, self_ty)))
             cx.vars[name] = (gal_name(name), nty)
         plist.append((name, nty))
+    for gname_t in generics:
+        if re.search(r'\b%s::get_type\(\)' % gname_t, body):
+            cx.generic_types[gname_t] = 'type_of_%s' % gname_t
+            binders.append('(type_of_%s : N)' % gname_t)
+            plist.append(('type_of_%s' % gname_t, 'AttributeType'))
     ast = P(lex(body)).block()
     ret_n = world.norm(ret, self_ty)
     if self_ty:
@@ -2295,6 +2374,17 @@ def main():
     w.opaque['StunAttribute'] = {'is_message_integrity': 'attr_is_mi', 'is_message_integrity_sha256': 'attr_is_sha', 'is_fingerprint': 'attr_is_fp'}
     emit_record(lib, 'ProtectedAttributeIteratorObject')
     emit_fn('gen_ProtectedAttributeIterator_next', lib, 'next', 'ProtectedAttributeIteratorObject', r"impl<'a>\s+Iterator\s+for\s+ProtectedAttributeIteratorObject<'a>")
+
+    # ---- stun-agent/src/message.rs : StunAttributes (one attribute per type, integrity / fingerprint slots) (C13)
+    amsg = 'stun-agent/src/message.rs'
+    saved_opaque = dict(w.opaque)
+    # here an attribute is (wire type, payload): attribute_type() is the first component
+    w.opaque['StunAttribute'] = {'@type': '(N * N)', 'is_message_integrity': 'sattr_is_mi', 'is_message_integrity_sha256': 'sattr_is_sha',
+                                 'is_fingerprint': 'sattr_is_fp', 'attribute_type': ('fst', 'AttributeType')}
+    emit_record(amsg, 'StunAttributes')
+    emit_fn('gen_StunAttributes_add', amsg, 'add', 'StunAttributes', r'impl\s+StunAttributes')
+    emit_fn('gen_StunAttributes_remove', amsg, 'remove', 'StunAttributes', r'impl\s+StunAttributes')
+    w.opaque = saved_opaque
 
     # ---- stun-agent/src/rtt.rs : the RTO estimator (C15); Duration::mul_f32 is Agent/F32.mul_f32 (binary32, round to nearest even)
     rtt = 'stun-agent/src/rtt.rs'
